@@ -82,6 +82,9 @@ func c01InterruptOne(c *core.Ctx, dir string, p c11Program, k int, sig string, p
 }
 
 func c01InterruptRun(c *core.Ctx) {
+	if c01FamilyOff("interrupt") {
+		return
+	}
 	dir := core.Scratch("c01int")
 	var idx int64
 	for _, p := range c01InterruptPrograms() {
